@@ -55,6 +55,7 @@ class Contract:
         self.pure = False
         self.native = {}
         self.refines = []
+        self.forget = set()         # callee postconditions mentioning these spec functions are not assumed (coarser, faster)
         self.local_types = {}       # declared types of local containers the engine cannot track (lists built in loops)
         self.use_abstract = set()  # callee method names resolved to the abstract contract of the base class
         self.assumes = []          # (text, expr): assumed at entry, listed in the evidence (never silently)
@@ -398,6 +399,9 @@ class Registry:
                 elif n == 'native':
                     for k in call.keywords:
                         c.native[k.arg] = k.value
+                elif n == 'forget':
+                    for x in call.args:
+                        c.forget.add(ast.literal_eval(x))
                 elif n == 'local':
                     for k in call.keywords:
                         c.local_types[k.arg] = k.value
@@ -772,7 +776,10 @@ class Registry:
         fr = Frame(None, {'self': obj}, obj.cls.module)
         fr.spec = True
         fr.old = fr
+        forget = I.current_contract.forget if I.current_contract is not None else ()
         for inv in invs:
+            if forget and any(isinstance(n_, ast.Name) and n_.id in forget for n_ in ast.walk(inv)):
+                continue
             I.path.assume(I.truth(I.ev(inv, fr)))
         if not I.path.feasible(z3.BoolVal(True)):
             raise PathEnd()
